@@ -149,6 +149,9 @@ pub fn mac_with_carry(a: u64, b: u64, c: u64, carry: &mut u64) -> u64 {
 /// Compute the NAF (non-adjacent form) of num
 pub fn find_naf(num: &[u64]) -> Vec<i8> {
     let mut num = num.to_vec();
+    // One spare limb so that adding the correction digit to a value just
+    // below 2^(64 * len) cannot lose its carry.
+    num.push(0);
     let mut res = vec![];
 
     // Helper functions for arithmetic operations
